@@ -210,6 +210,11 @@ func genBatch(r *RNG, withBad bool, maxLines int) *Scenario {
 	sp.RecordP = r.PickF([]float64{1, 1.0 / 7, 1.0 / 30, 1.0 / 365})
 	sp.NoPoolYield = r.Bool(0.15) // coarse stratum: no parking at pooled-file Gets
 	sp.OpP = r.PickF([]float64{0, 0, 0, 1.0 / 400, 1.0 / 40}) // fine stratum: runs also park in the middle of a record
+	if sp.OpP >= 1.0/40 && len(sc.Lines) > 5 {
+		// parking every 40th write call of every run: only small batches stay inside the decision budget of a scenario
+		// (a record of the verification output is some 600 write calls; 200 000 decisions per scenario)
+		sp.OpP = 1.0 / 400
+	}
 	sc.Sched = sp
 	return sc
 }
@@ -510,7 +515,27 @@ func checkBatchOutcome(sc *Scenario, order []int, refs []*lineRef, out *BatchOut
 		return vs
 	}
 	if out.DecisionCap {
-		add("termination", "decision-budget-exhausted", "the batch did not finish within 200000 scheduler decisions", "")
+		hist := map[string]int{}
+		for _, rel := range out.Released {
+			k := rel.Task + " " + rel.Point
+			if rel.Point == "pool.get" || strings.HasPrefix(rel.Point, "disk.") {
+				k += " " + rel.Detail[strings.LastIndexByte(rel.Detail, '/')+1:]
+			}
+			hist[k]++
+		}
+		type kv struct {
+			k string
+			n int
+		}
+		var top []kv
+		for k, n := range hist {
+			top = append(top, kv{k, n})
+		}
+		sort.Slice(top, func(i, j int) bool { return top[i].n > top[j].n || (top[i].n == top[j].n && top[i].k < top[j].k) })
+		if len(top) > 6 {
+			top = top[:6]
+		}
+		add("termination", "decision-budget-exhausted", fmt.Sprintf("the batch did not finish within 200000 scheduler decisions; most frequent releases: %v", top), "")
 		return vs
 	}
 	if aborted {
